@@ -125,6 +125,7 @@ func (c *wsConn) dispose() {
 	c.mu.Lock()
 	c.disposing = true
 	close(c.work)
+	verifNote("cqDispose", "cid", c.cid)
 	c.mu.Unlock()
 
 	c.serv.cache.RemoveConn(c)
@@ -196,6 +197,7 @@ func (c *wsConn) Enqueue(f func()) bool {
 	c.mu.Lock()
 	defer c.mu.Unlock()
 	if c.disposing {
+		verifNote("cqRefuse", "cid", c.cid)
 		return false
 	}
 	c.enqueue(f)
@@ -204,6 +206,7 @@ func (c *wsConn) Enqueue(f func()) bool {
 
 func (c *wsConn) enqueue(f func()) {
 	count := len(c.queue)
+	verifNote("cqEnq", "cid", c.cid, "count", count)
 	c.queue = append(c.queue, f)
 	// If the queue was empty, the worker is idling
 	// Let's wake it up.
@@ -691,6 +694,7 @@ func (c *wsConn) outputWorker() {
 		c.mu.Lock()
 		for len(c.queue) > idx {
 			f = c.queue[idx]
+			verifNote("cqRun", "cid", c.cid, "idx", idx, "len", len(c.queue))
 			c.mu.Unlock()
 			verifGate("conn", c.cid)
 			f()
@@ -698,6 +702,7 @@ func (c *wsConn) outputWorker() {
 			c.mu.Lock()
 		}
 
+		verifNote("cqReset", "cid", c.cid, "idx", idx, "len", len(c.queue))
 		if cap(c.queue) > WSConnWorkerQueueSize {
 			c.queue = make([]func(), 0, WSConnWorkerQueueSize)
 		} else {
@@ -706,6 +711,7 @@ func (c *wsConn) outputWorker() {
 		c.mu.Unlock()
 	}
 
+	verifNote("cqDone", "cid", c.cid, "len", len(c.queue))
 	c.queue = nil
 	// Callbacks queued behind the dispose have now been called. Only then
 	// is the connection done; they may still use the cache.
